@@ -69,6 +69,10 @@ class Ops:
     def disc(c): return f"disc {c}"
     @staticmethod
     def dump(): return "dump"
+    @staticmethod
+    def cgetr(c, k): return f"cgetr {c} {xs(k)}"
+    @staticmethod
+    def csetr(c, k, v): return f"csetr {c} {xs(k)} {js(v)}"
 
 def write_cases(path, cases):
     """cases: list of (name, [op lines])"""
